@@ -39,7 +39,7 @@ pub enum TCase {
 }
 
 pub const REGION_CTX: [&str; 7] = ["", "a = 0; X = 3;", "X = a + b;", "Y = a & 3;", "a = 5;", "X = a; Y = a;", "b = a;"];
-pub const REGION_STMTS: [&str; 12] = ["load(X);", "load(Y);", "store(X);", "store(Y);", "load(0);", "load(5);", "load(a);", "store(b);", "strobe(R3);", "load(*R1);", "store(*R2);", "csleep(4);"];
+pub const REGION_STMTS: [&str; 15] = ["load(X);", "load(Y);", "store(X);", "store(Y);", "load(0);", "load(5);", "load(a);", "store(b);", "strobe(R3);", "load(*R1);", "store(*R2);", "csleep(4);", "csleep(3);", "csleep(5);", "csleep(10);"];
 
 pub fn cases(tier: Tier) -> Vec<TCase> {
     let mut v = Vec::new();
